@@ -29,7 +29,7 @@ STUB_ALLOW = {
     'prometheus_api_client', 'aiohttp_devtools', 'setproctitle', 'regex', 'portpicker', 'pyjwt',
     'azure_stub_never', 'mypy_boto3_s3', 'types_aiobotocore', 'pkg_resources_stub_never', 'helpers',
     'collections_extended', 'py', 'pytz', 'pyfaidx', 'pysam',
-    'dictdiffer', 'urllib3', 'googlecloudprofiler', 'pythonjsonlogger',
+    'dictdiffer', 'urllib3', 'googlecloudprofiler', 'pythonjsonlogger', 'scipy',
 }
 
 
